@@ -7,7 +7,7 @@ from harness.common import sim
 PROP = "C13"
 LEAN_MODULES = ["LunaVerif.Props.C13", "LunaVerif.Lemmas.C13Host", "LunaVerif.Lemmas.C13Write", "LunaVerif.Lemmas.C13Fin",
                 "LunaVerif.Props.C13Stream", "LunaVerif.Props.C13Handshake", "LunaVerif.Props.C13Space",
-                "LunaVerif.Props.C13Foreign"]
+                "LunaVerif.Props.C13Foreign", "LunaVerif.Props.C13NoRoom"]
 DRIVER = "Driver/C13.lean"
 REQUIRED_THEOREMS = ["ack_implies_delivered_or_repeat_partial", "nak_iff_cannot_take_partial", "fifo_inputs_legal",
                      "overflow_sticky", "overflowed_packet_discarded", "overflowed_packet_naked",
@@ -20,7 +20,9 @@ REQUIRED_THEOREMS = ["ack_implies_delivered_or_repeat_partial", "nak_iff_cannot_
                      "ack_when_space", "ping_ack_promise",
                      # packets that are not for the endpoint may have any length (Props/C13Foreign.lean)
                      "legalHostStrict_imp", "legalHost_not_strict", "foreign_cycle_ignored", "foreign_cycles_ignored",
-                     "foreign_transaction_ignored"]
+                     "foreign_transaction_ignored",
+                     # a packet for the endpoint longer than the free space is NAKed (Props/C13NoRoom.lean)
+                     "nak_when_no_room"]
 RULE = ("cases = (max_packet_size, buffer_size) x consumer pattern x response delay x seed; a scripted host issues OUT "
         "transactions (sizes 0..max, biased to max-size packets followed by a ZLP), retries NAKed packets, repeats "
         "ACKed packets with the old toggle (lost handshake), sends CRC-corrupted packets, PINGs, traffic to other "
